@@ -5,6 +5,8 @@
 #define _GNU_SOURCE
 #include <stdio.h>
 #include <stdlib.h>
+#define _GNU_SOURCE
+#include <link.h>
 #include <string.h>
 #include <errno.h>
 #define IDN2_SKIP_LIBIDN_COMPAT
@@ -93,14 +95,7 @@ static void ladd (void *p, size_t n, int tag)
     lallocs++;
 }
 
-void sim_ledger_reset (uint64_t fill_seed)
-{
-    memset (ltab, 0, sizeof ltab);
-    lused = 0; lseq = 0; lallocs = 0; lfrees = 0;
-    fill_rng = sim_derive (fill_seed, 0xF111);
-    g_sim_nreports = 0;
-}
-
+#define SIM_TAG_CARRIED 998
 uint64_t sim_ledger_allocs (void) { return lallocs; }
 uint64_t sim_ledger_frees (void) { return lfrees; }
 
@@ -119,8 +114,26 @@ int sim_ledger_live_total (void)
 extern char __start_eavdata[] __attribute__((weak)); extern char __stop_eavdata[] __attribute__((weak));
 extern char __start_eavbss[] __attribute__((weak)); extern char __stop_eavbss[] __attribute__((weak));
 
+static const char *tls_lo, *tls_hi; static int tls_known;
+static int tls_cb (struct dl_phdr_info *info, size_t size, void *data)
+{
+    (void)size; (void)data;
+    if (info->dlpi_name && info->dlpi_name[0]) return 0;        /* the executable only: the library objects are linked into it */
+    if (!info->dlpi_tls_data) return 1;
+    for (int i = 0; i < info->dlpi_phnum; i++)
+        if (info->dlpi_phdr[i].p_type == PT_TLS) { tls_lo = (const char *)info->dlpi_tls_data; tls_hi = tls_lo + info->dlpi_phdr[i].p_memsz; }
+    return 1;
+}
+
+#define MAXROOTS 16
+static const char *root_lo[MAXROOTS]; static size_t root_n[MAXROOTS]; static int n_roots;
+void sim_ledger_roots_clear (void) { n_roots = 0; }
+void sim_ledger_root_add (const void *p, size_t n) { if (p && n_roots < MAXROOTS) { root_lo[n_roots] = (const char *)p; root_n[n_roots] = n; n_roots++; } }
+
 #define MAXLIVE 1024
 static struct lent *g_lv[MAXLIVE]; static unsigned char g_mark[MAXLIVE]; static int g_nlv;
+
+static unsigned char *marks_of_last_scan (int *n) { *n = g_nlv; return g_mark; }
 
 __attribute__((no_sanitize("address"))) static void scan_words (const char *lo, const char *hi, int *stack, int *sp)
 {
@@ -136,21 +149,58 @@ __attribute__((no_sanitize("address"))) static void scan_words (const char *lo, 
 }
 
 /* number of live blocks with this tag (or any tag if tag == -2) that are NOT reachable from library statics */
-int sim_ledger_unreachable_live (int tag)
+int sim_ledger_unreachable_live (int tag) { return sim_ledger_unreachable_list (tag, NULL, 0); }
+
+int sim_ledger_unreachable_list (int tag, void **out, int max)
 {
     static int stack[MAXLIVE]; int sp = 0, n = 0, any = 0;
     g_nlv = 0;
     for (int i = 0; i < LSIZE; i++) if (ltab[i].state == 1) {
         if (g_nlv < MAXLIVE) g_lv[g_nlv++] = &ltab[i];
-        if (tag == -2 || ltab[i].tag == tag) any++;
+        if (tag == -3 || (tag == -2 && ltab[i].tag != SIM_TAG_CARRIED) || ltab[i].tag == tag) any++;
     }
-    if (!any) return 0;
     memset (g_mark, 0, sizeof g_mark);
+    if (!any) { g_nlv = 0; return 0; }
     if (__start_eavdata) scan_words (__start_eavdata, __stop_eavdata, stack, &sp);
     if (__start_eavbss) scan_words (__start_eavbss, __stop_eavbss, stack, &sp);
+    /* thread-local statics of the executable (a per-thread free list is static storage too; the simulator has one thread) */
+    if (!tls_known) { dl_iterate_phdr (tls_cb, NULL); tls_known = 1; }
+    if (tls_lo) scan_words (tls_lo, tls_hi, stack, &sp);
+    /* objects of the caller that are alive: what they hold is theirs (a recycled record keeps the tag of whoever allocated it first) */
+    for (int i = 0; i < n_roots; i++) scan_words (root_lo[i], root_lo[i] + root_n[i], stack, &sp);
     while (sp > 0) { struct lent *e = g_lv[stack[--sp]]; scan_words ((const char *)e->p, (const char *)e->p + e->n, stack, &sp); }
-    for (int i = 0; i < g_nlv; i++) if ((tag == -2 || g_lv[i]->tag == tag) && !g_mark[i]) n++;
+    for (int i = 0; i < g_nlv; i++) if (((tag == -2 && g_lv[i]->tag != SIM_TAG_CARRIED) || g_lv[i]->tag == tag) && !g_mark[i]) { if (out && n < max) out[n] = g_lv[i]->p; n++; }
     return n;
+}
+
+
+void sim_ledger_reset (uint64_t fill_seed)
+{
+    /* blocks that the library itself still holds (reachable from its statics or thread-locals: a free list, a lazily built
+     * index) stay known, under a tag that no check counts: a block of the next plan may be reachable only through them */
+    static struct lent keep[256]; int nk = 0;
+    n_roots = 0;
+    if (lused) {
+        int n = 0; sim_ledger_unreachable_list (-3, NULL, 0);      /* -3: look at every live block, carried ones included */
+        unsigned char *m = marks_of_last_scan (&n);
+        for (int i = 0; i < n && nk < 256; i++) if (m[i]) { keep[nk] = *g_lv[i]; keep[nk].tag = SIM_TAG_CARRIED; nk++; }
+    }
+    memset (ltab, 0, sizeof ltab);
+    lused = 0; lseq = 0; lallocs = 0; lfrees = 0;
+    for (int k = 0; k < nk; k++) {
+        unsigned h = lhash (keep[k].p);
+        for (int i = 0; i < LSIZE; i++) { struct lent *e = &ltab[(h + i) & (LSIZE - 1)]; if (e->state == 0) { *e = keep[k]; lused++; break; } }
+    }
+    fill_rng = sim_derive (fill_seed, 0xF111);
+    g_sim_nreports = 0;
+}
+
+
+/* 0: not a block the ledger knows (static, thread-local or stack storage), 1: allocated, 2: released */
+int sim_ledger_state (void *p)
+{
+    struct lent *e = lfind (p);
+    return e ? e->state : 0;
 }
 
 int sim_ledger_live_for_tag (int tag, void **out, int max)
@@ -176,10 +226,11 @@ void sim_ledger_forget (int tag)
         if (ltab[i].state == 1 && ltab[i].tag == tag) { ltab[i].state = 2; lfrees++; }
 }
 
-int g_sim_af_at, g_sim_af_n, g_sim_af_fired;
-static int alloc_fails (void)
+int g_sim_af_at, g_sim_af_n, g_sim_af_fired; size_t g_sim_af_sizes[4];
+static int alloc_fails (size_t size)
 {
-    if (g_sim_tag == SIM_TAG_NONE || in_raw || g_sim_af_at <= 0) return 0;
+    if (g_sim_tag == SIM_TAG_NONE || in_raw || g_sim_af_at <= 0 || g_sim_af_fired) return 0;
+    if (g_sim_af_n < 4) g_sim_af_sizes[g_sim_af_n] = size;
     if (++g_sim_af_n != g_sim_af_at) return 0;
     g_sim_af_fired = 1; errno = ENOMEM;
     return 1;
@@ -201,7 +252,7 @@ void sim_raw_free (void *p) { in_raw++; __real_free (p); in_raw--; }
 
 void *__wrap_malloc (size_t n)
 {
-    if (alloc_fails ()) return NULL;
+    if (alloc_fails (n)) return NULL;
     void *p = __real_malloc (n);
     if (p && g_sim_tag != SIM_TAG_NONE && !in_raw) { sim_fill (p, n); ladd (p, n, g_sim_tag); }
     return p;
@@ -209,7 +260,7 @@ void *__wrap_malloc (size_t n)
 
 void *__wrap_calloc (size_t a, size_t b)
 {
-    if (alloc_fails ()) return NULL;
+    if (alloc_fails (a * b)) return NULL;
     void *p = __real_calloc (a, b);
     if (p && g_sim_tag != SIM_TAG_NONE && !in_raw) ladd (p, a * b, g_sim_tag);
     return p;
@@ -228,7 +279,7 @@ void *__wrap_realloc (void *o, size_t n)
 
 char *__wrap_strndup (const char *s, size_t n)
 {
-    if (alloc_fails ()) return NULL;
+    if (alloc_fails (strnlen (s, n) + 1)) return NULL;
     char *p = __real_strndup (s, n);
     if (p && g_sim_tag != SIM_TAG_NONE && !in_raw) ladd (p, strlen (p) + 1, g_sim_tag);
     return p;
@@ -236,7 +287,7 @@ char *__wrap_strndup (const char *s, size_t n)
 
 char *__wrap_strdup (const char *s)
 {
-    if (alloc_fails ()) return NULL;
+    if (alloc_fails (strlen (s) + 1)) return NULL;
     char *p = __real_strdup (s);
     if (p && g_sim_tag != SIM_TAG_NONE && !in_raw) ladd (p, strlen (p) + 1, g_sim_tag);
     return p;
